@@ -24,7 +24,7 @@ func init() {
 		Gen:       c03Gen,
 		Exec:      c03Exec,
 		Class:     func(op, out string) string { f := fields(op); return f[0] + "-" + f[1] },
-		ModelSkip: func(op string) bool { return strings.HasPrefix(op, "doc ") },
+		ModelSkip: func(op string) bool { return strings.HasPrefix(op, "doc ") || strings.HasPrefix(op, "lit ") },
 	})
 }
 
@@ -289,6 +289,38 @@ func c03Exec(op string) (string, *Violation) {
 			}
 		}
 		return "ok", nil
+	case "lit":
+		// a literal <osm> document (hex): the scanner must yield, per kind, what the whole-document decode holds
+		if len(f) != 3 || f[1] != "osm" {
+			return "bad-op", nil
+		}
+		text, herr := unhx(f[2])
+		if herr != nil {
+			return "bad-op", nil
+		}
+		back := &osm.OSM{}
+		if err := xml.Unmarshal([]byte(text), back); err != nil {
+			return "unmarshal-error", nil // not a well-formed OSM document: nothing claimed
+		}
+		got, serr := c04Scan([]byte(text))
+		if serr != nil {
+			return "scan-error", &Violation{Signature: "xml-scan-error-osm", Text: serr.Error() + "\n" + truncate(text, 1200)}
+		}
+		count := map[osm.Type]int{}
+		for _, o := range got {
+			count[o.ObjectID().Type()]++
+		}
+		want := map[osm.Type]int{osm.TypeNode: len(back.Nodes), osm.TypeWay: len(back.Ways), osm.TypeRelation: len(back.Relations),
+			osm.TypeChangeset: len(back.Changesets), osm.TypeNote: len(back.Notes), osm.TypeUser: len(back.Users)}
+		if back.Bounds != nil {
+			want[osm.TypeBounds] = 1
+		}
+		for _, t := range []osm.Type{osm.TypeBounds, osm.TypeNode, osm.TypeWay, osm.TypeRelation, osm.TypeChangeset, osm.TypeNote, osm.TypeUser} {
+			if count[t] != want[t] {
+				return "scan-differs", &Violation{Signature: "xml-scan-count-osm", Text: fmt.Sprintf("scanner yields %d objects of type %s, the whole-document decode holds %d.\n%s", count[t], t, want[t], truncate(text, 1500))}
+			}
+		}
+		return fmt.Sprintf("ok %d", len(got)), nil
 	case "dattrs":
 		v, ok := c04NewRecord(f[1])
 		if !ok {
